@@ -51,6 +51,9 @@ XRemoveStorage(p, par, n) == IF ver = 3 THEN P3!RemoveStorage(p, par, n) ELSE P4
 XWriteData(p, id, o, n)   == IF ver = 3 THEN P3!WriteData(p, id, o, n) ELSE P4!WriteData(p, id, o, n)
 XSetLen(p, id, n)         == IF ver = 3 THEN P3!SetLen(p, id, n) ELSE P4!SetLen(p, id, n)
 XReload(p)                == IF ver = 3 THEN P3!Reload(p) ELSE P4!Reload(p)
+XWriteCase(p, id, o, n)   == IF ver = 3 THEN P3!WriteCaseOf(p, id, o, n) ELSE P4!WriteCaseOf(p, id, o, n)
+XResizeCase(p, id, n)     == IF ver = 3 THEN P3!ResizeCaseOf(p, id, n) ELSE P4!ResizeCaseOf(p, id, n)
+XStepClass(w, p, p2)      == IF ver = 3 THEN "v3:" \o P3!StepClass(w, p, p2) ELSE "v4:" \o P4!StepClass(w, p, p2)
 KStream == 2
 
 RECURSIVE ResolveFrom(_, _, _)
@@ -108,6 +111,16 @@ XApply(p, e) ==
     [] e.op = "reopen"             -> XReload(p)
     [] OTHER -> p
 
+(* the class of a recorded step (CfbPhys, "Case analysis coverage") *)
+XClass(p, p2, e) ==
+  LET nc == IF Has(e, "p") THEN Normalize(e.p) ELSE [ok |-> TRUE, names |-> <<>>]
+      id == XResolve(p, nc.names)
+      what == CASE e.op = "write" /\ id > 0 /\ RLen(e.runs) > 0 -> XWriteCase(p, id, e.off, IF RLen(e.runs) > MB THEN MB ELSE RLen(e.runs))
+                [] e.op = "set_len" /\ id > 0 -> XResizeCase(p, id, e.n)
+                [] e.op \in {"create_stream", "create_new_stream"} -> (IF id > 0 THEN "recreate" ELSE "create_stream")
+                [] OTHER -> e.op
+  IN XStepClass(what, p, p2)
+
 ---------------------------------------------------------------------------
 (* comparison of the predicted state with the raw decode of the image        *)
 SlotView(s) == <<s.name, s.kind, s.left, s.right, s.child, s.start, s.size>>
@@ -148,6 +161,9 @@ Step ==
               bad == IF e.heavy /\ Has(e, "img") /\ ~e.img.short /\ e.img.geometry THEN Mismatches(q2, e.img) ELSE <<>>
           IN /\ q' = q2 /\ UNCHANGED ver
              /\ (IF e.heavy /\ Has(e, "img") THEN TLCSet(41, TLCGet(41) + 1) ELSE TRUE)
+             /\ (IF e.res.k = "ok" /\ e.op \in {"write", "set_len", "create_stream", "create_new_stream", "create_storage", "create_storage_all",
+                                                  "remove_stream", "remove_storage", "remove_storage_all"}
+                 THEN PrintT(<<"CLASS", XClass(q, q2, e)>>) ELSE TRUE)
              /\ (\A i \in 1..Len(bad) : PrintT(<<"DRIFT", bad[i][1], e.hi, e.oi, l>>))
              /\ skip' = (bad # <<>>)
   /\ l' = l + 1
